@@ -66,6 +66,10 @@ func New(mode string, seed int64, nstr int) *Table {
 	case "plain":
 		t.Strs = append([]string(nil), PlainKeys...)
 		sort.Strings(t.Strs[:3])
+	case "bytes":
+		// strings that are not valid UTF-8 (containers must hold and hand back any Go string unchanged)
+		t.Strs = []string{"k\xfe", "k\xff", "\xc3(", "a\x80b", "\xed\xa0\x80", "plain"}
+		sort.Strings(t.Strs[:nstr])
 	case "dots":
 		// keys that look like tree-form paths of each other: ".a" must not be read as the path to "a"
 		t.Strs = []string{".a", ".a.b", "a", "b", "#0", ".b"}
@@ -75,7 +79,8 @@ func New(mode string, seed int64, nstr int) *Table {
 	case "extreme":
 		t.Strs = pick(PlainKeys)
 		// strictly increasing images for tokens -3..12
-		ints := []int{math.MinInt, math.MinInt + 1, -(1 << 53) - 1, -1, 0, 1, 2, 1 << 31, 1<<53 + 1, math.MaxInt - 6, math.MaxInt - 5, math.MaxInt - 4, math.MaxInt - 3, math.MaxInt - 2, math.MaxInt - 1, math.MaxInt}
+		// tokens 2 and 3 are 2^53 and 2^53+1: distinct ints with the same float64 image
+		ints := []int{math.MinInt, math.MinInt + 1, -(1 << 53) - 1, -1, 0, 1, 1 << 53, 1<<53 + 1, 1<<53 + 2, math.MaxInt - 6, math.MaxInt - 5, math.MaxInt - 4, math.MaxInt - 3, math.MaxInt - 2, math.MaxInt - 1, math.MaxInt}
 		for i, v := range ints {
 			t.Ints[i-4] = v
 		}
